@@ -401,8 +401,40 @@ def gen_sid(rng, ty=None, n=None):
     elif ty == 2:
         chars = [rng.choice([0x20, 0x5f, 0x21, 0x3f, 0x40, rng.randrange(0x20, 0x60)]) for _ in range(n)]
     else:
-        chars = [rng.choice([0, 255, 0x41, 0x7f, 0x80, rng.randrange(256)]) for _ in range(n)]
+        chars = [rng.choice([0, 255, 0x41, 0x7f, 0x80, 0x5c, 0x75, 0x55, 0x78, 0x25, 0x7b, rng.randrange(256)]) for _ in range(n)]
     return [ty, chars]
+
+
+# text that a decoder might treat specially (escapes, format directives, NUL, high bytes)
+ESCAPE_LOOKING = [b'\\u0031', b'\\U0001F600', b'\\x41', b'\\n', b'\\', b'\\\\', b'PS\\unit1', b'A\\Ux', b'\\u', b'\\U', b'\\N{DASH}',
+                  b'%s', b'%d%n', b'{0}', b'{}', b'\x00', b'A\x00B', b'\x00\x00', b'\r\n', b'\t', b'\x7f', b'\x80', b'\xff\xfe',
+                  b'\xc3\xa9', b'\xc3', b'\xe2\x82', b'\xed\xa0\x80', bytes(range(0x80, 0x90)), bytes(range(0xf0, 0x100)),
+                  b'\\u00e9\\u00e9\\u00', b'&amp;', b"'\"", b'\\x', b'\\0', b'\\777']
+
+
+def idstring_cases(rng, quick):
+    """[(sid, also_correspondence)]: every byte value as a 1-character string, every pair with a
+    backslash first or second, escape-looking strings - for the two 8-bit encodings; every character and
+    every pair with '\\' for the packed encodings"""
+    out = []
+    for ty in (0, 3):
+        for x in range(256):
+            out.append(([ty, [x]], True))
+            out.append(([ty, [0x5c, x]], ty == 3 or x % 4 == 0 or not quick))
+            out.append(([ty, [x, 0x5c]], ty == 0 and x % 4 == 0 or not quick))
+        for t in ESCAPE_LOOKING:
+            out.append(([ty, list(t[:16])], True))
+            pad = list((b'ID ' + t + b' end')[:16])
+            out.append(([ty, pad], True))
+    for x in range(0x20, 0x60):
+        out.append(([2, [x]], True))
+        out.append(([2, [0x5c, x]], x % 4 == 0 or not quick))
+        out.append(([2, [x, 0x5c, 0x55, 0x30]], x % 4 == 0 or not quick))
+    for a in BCD_CHARS:
+        out.append(([1, [ord(a)]], True))
+        for b in BCD_CHARS:
+            out.append(([1, [ord(a), ord(b)]], not quick or a == b))
+    return out
 
 
 def gen_spec(rng, kind, mode='mixed', sid=None):
@@ -505,7 +537,46 @@ def oracle_parse_seq(inp):
     return None
 
 
-ORACLES = {'roundtrip': oracle_roundtrip, 'dispatch': oracle_dispatch, 'parse_seq': oracle_parse_seq}
+def compare_obj(s, obj):
+    """first attribute of a parsed object that differs from the spec's expected view, or None"""
+    want = norm(expected(s))
+    got = norm(observe_obj(obj)) if type(obj).__name__ == want[0][1] else [('class', type(obj).__name__)]
+    for (n, w), (_, g) in zip(want, got):
+        if w != g:
+            return n, getattr(obj, n, g) if n != 'class' else g, (lambda v: v[1] if isinstance(v, tuple) else v)(dict(expected(s))[n])
+    return None
+
+
+def oracle_parse_keep(inp):
+    """records parsed one after the other in ONE process with every parsed object kept (as in the
+    list returned by get_repository_sdr_list): a parsed record does not change when other records
+    are parsed - after every later parse each earlier object still shows its own encoded attributes"""
+    kept = []
+    for n, item in enumerate(inp['calls']):
+        try:
+            obj = parse(array.array('B', encode(item['spec'])) if 'spec' in item else list(bytes.fromhex(item['raw'])))
+        except Exception:  # noqa
+            obj = None
+        for (k, s, o) in kept:
+            d = attempt_cmp(s, o)
+            if d:
+                return ('changed', d[0]), ('object %d (%s record %s) was correct after its own parse; after parsing record %d '
+                                            '(%d records in this process) its attribute %s is %r, encoded %r'
+                                            % (k + 1, s['kind'], encode(s).hex(), n + 1, len(inp['calls']), d[0], d[1], d[2]))
+        if obj is not None and 'spec' in item and attempt_cmp(item['spec'], obj) is None:
+            kept.append((n, item['spec'], obj))     # only objects that were right to begin with are watched
+    return None
+
+
+def attempt_cmp(s, obj):
+    try:
+        return compare_obj(s, obj)
+    except Exception as e:  # noqa
+        return ('exception', type(e).__name__, 'attributes readable')
+
+
+ORACLES = {'roundtrip': oracle_roundtrip, 'dispatch': oracle_dispatch, 'parse_seq': oracle_parse_seq,
+           'parse_keep': oracle_parse_keep}
 
 
 def viol_key(s, sig):
@@ -514,6 +585,8 @@ def viol_key(s, sig):
         sid = s['f'].get('id')
         if sid is not None and sid[0] in (1, 2):
             return 'id_string:%s:%s' % ({1: 'bcd_plus', 2: '6bit_ascii'}[sid[0]], sig[1])
+        if sid is not None and 'Unicode' in sig[1]:
+            return 'id_string:%s:%s' % ({0: 'unicode', 3: '8bit_ascii'}[sid[0]], sig[1])
         return '%s:exception:%s' % (s['kind'], sig[1])
     if sig[1].startswith('device_id_string'):
         return 'id_string:%s' % sig[1]
@@ -595,6 +668,7 @@ def run(ctx):
     #    every parse is compared with the stateless model (chk_parse) and judged by the oracle
     for i in range(8 if q else 60):
         pool, n = [], rng.randrange(4, 11)
+        items, kept = [], []        # the sequence so far; (spec, bytes, object) of every record parsed correctly
         for j in range(n):
             c = rng.random()
             if pool and c < 0.3:
@@ -603,6 +677,7 @@ def run(ctx):
                 junk = bytes([rng.randrange(256), 0, 0x51, rng.choice(list(CLASS_OF_TYPE)), 3] +
                              [rng.randrange(256) for _ in range(rng.randrange(0, 30))])
                 corr_parse(junk, 'history-malformed')
+                items.append({'raw': junk.hex()})
                 continue
             else:
                 s = gen_spec(rng, rng.choice(['full', 'full', 'full', 'compact', 'event', 'fruloc', 'mcloc', 'mcconf', 'oem', 'other']))
@@ -612,6 +687,35 @@ def run(ctx):
                 pool.append(s)
             corr_spec(s, 'history')
             oracle_rt(s)
+            items.append({'spec': s})
+            data = encode(s)
+            try:
+                o = parse(as_input(rng, data))
+                if attempt_cmp(s, o) is None:
+                    kept.append((s, data, o))
+            except Exception:  # noqa
+                pass
+            # every earlier object of this sequence must still show its own record (oracle) ...
+            for (s0, d0, o0) in kept:
+                res.evaluations += 1
+                d = attempt_cmp(s0, o0)
+                if d and 'history:%s:%s:changed-by-later-parse' % (s0['kind'], d[0]) not in fails and budget[0] > 0:
+                    budget[0] -= 1
+                    key = 'history:%s:%s:changed-by-later-parse' % (s0['kind'], d[0])
+                    seq = C.shrink_history('C16', 'parse_keep', list(items)) or list(items)
+                    r = oracle_parse_keep({'calls': seq})
+                    fails[key] = C.Violation(
+                        key=key,
+                        what=(r[1] if r else '%s record %s: attribute %s changed to %r after a later record was parsed'
+                              % (s0['kind'], d0.hex(), d[0], d[1])) + ' [history of %d record(s)]' % len(seq),
+                        replay={'oracle': 'parse_keep', 'input': {'calls': seq, 'changed_attribute': d[0]}})
+        # ... and the stateless model: re-observe every kept object at the end of the sequence
+        for (s0, d0, o0) in kept:
+            try:
+                exp = '(Ok %s)' % coq_obs(observe_obj(o0))
+            except Exception as e:  # noqa
+                exp = exc_term(e)
+            add('chk_parse %s %s' % (C.c_hex(d0), exp), ('parse', 'history-recheck', d0.hex()))
         D.add(('history', i), True, 'history-sequence')
     # 1. boundary + random records of every kind (correspondence + oracle)
     for k in kinds:
@@ -632,6 +736,15 @@ def run(ctx):
                 oracle_rt(s)
                 if k == 'full' or (n % 5 == ty) or not q:
                     corr_spec(s, 'idstring')
+    # 2b. id-string content: every byte value, backslash pairs, escape-looking text (both sides)
+    for n_, (sid, corr) in enumerate(idstring_cases(rng, q)):
+        for k in ('full', 'compact', 'event', 'fruloc', 'mcloc'):
+            if k != 'full' and not (n_ % 5 == ('compact', 'event', 'fruloc', 'mcloc').index(k) or not q):
+                continue
+            s = gen_spec(rng, k, sid=sid)
+            oracle_rt(s)
+            if corr and (k == 'full' or n_ % 3 == 0):
+                corr_spec(s, 'idstring-content')
     # 3. full record sweeps (oracle on all; correspondence on a sample)
     sweeps = []
     for m in range(-512, 512):
@@ -703,7 +816,10 @@ def run(ctx):
     res.histogram = D.hist
     res.rule = ('history stage first: sequences of 4..10 records of mixed kinds parsed in one process (same record '
                 'again, malformed input in between), a failure that does not reproduce alone in a fresh interpreter is '
-                'reported with its shrunk history; then spec records of the 8 kinds: all-zero / all-max / all-min boundary records x 4 id encodings, random '
+                'reported with its shrunk history; all objects of a sequence are kept and re-compared after every later parse '
+                '(oracle parse_keep) and re-observed against the model at the end; id-string content: every byte value as a '
+                '1-character string, every pair with a backslash, escape-looking / NUL / high-byte text for the 8-bit encodings, '
+                'every character and backslash pairs for the packed ones, on the 5 kinds carrying a string; then spec records of the 8 kinds: all-zero / all-max / all-min boundary records x 4 id encodings, random '
                 'records (each field boundary with p=0.4 else uniform), id strings of every encoding x length 0..16 on '
                 'the 5 kinds carrying one, full-record sweeps of M, B (-512..511), accuracy (0..1023), all 256 exponent '
                 'pairs, all unit/flag sub-fields (oracle on every record, correspondence on a sample), every prefix of '
